@@ -165,6 +165,19 @@ func (c *Ctx) Expand(names []string) (*Expansion, error) {
 		fx.PkgPath = "expansions/" + fx.Name
 		fixtures = append(fixtures, fx)
 	}
+	// the verification's own fixture specs (shapes the repository's corpus lacks): always expanded
+	if extra, _ := filepath.Glob(filepath.Join(c.VerifDir, "fixtures", "*")); len(extra) > 0 {
+		sort.Strings(extra)
+		for _, spec := range extra {
+			ext := filepath.Ext(spec)
+			if ext != ".json" && ext != ".yml" && ext != ".yaml" {
+				continue
+			}
+			name := "vf_" + strings.TrimSuffix(filepath.Base(spec), ext)
+			fixtures = append(fixtures, &Fixture{Name: name, Package: "api", Spec: spec, Origin: filepath.Join(c.Repo, "internal/integration/generate.go"),
+				Dir: filepath.Join(ex.Dir, name), PkgPath: "expansions/" + name})
+		}
+	}
 	for n := range want {
 		found := false
 		for _, fx := range fixtures {
